@@ -12,7 +12,7 @@ import (
 
 func init() {
 	register("C01",
-		"Decides structural necessary conditions of the FIFO contract of UnsafeLinkBuffer, not the byte values: (R1) in every size-taking Reader method nothing is mutated before the Len() < n test has failed (a short read consumes nothing); (R2) every method that advances a node's read offset first subtracts from the atomic length through recalLen with a negated count, and every method that makes bytes readable (Flush, bookAck, WriteBuffer) adds through recalLen; (R3) the length has a single writer set (recalLen, Close, the fresh Slice reader, the donor reset) and the Peek cache is invalidated inside recalLen on every negative delta; (R4) every nil-returning path of MallocAck stores the malloc offset of the node the write cursor ends on (bytes discarded by MallocAck(0) do not become readable); (R5) a node's Malloc is reached only after growth() (which leaves on a managed node with room, or a fresh one) or from book(); (R6) the reader side never reads the writer's cursor (it stops at flush), and Append links the donor chain from the donor's read cursor; (R7, shared with C02) Slice nodes pin the root block by its reference count; (R8) every site that makes bytes pending adds the same count to mallocSize; (R9) Slice refers and links every node it marks. Not decided: which bytes are returned, order, exactly-once, Len/MallocLen values, node-boundary arithmetic, Append/Slice content - value properties of a linked structure that need shape analysis plus arithmetic.",
+		"Decides structural necessary conditions of the FIFO contract of UnsafeLinkBuffer, not the byte values: (R1) in every size-taking Reader method nothing is mutated before the Len() < n test has failed (a short read consumes nothing); (R2) every method that advances a node's read offset first subtracts from the atomic length through recalLen with a negated count, and every method that makes bytes readable (Flush, bookAck, WriteBuffer) adds through recalLen; (R3) the length has a single writer set (recalLen, Close, the fresh Slice reader, the donor reset) and the Peek cache is invalidated inside recalLen on every negative delta; (R4) every nil-returning path of MallocAck stores the malloc offset of the node the write cursor ends on (bytes discarded by MallocAck(0) do not become readable); (R5) a node's Malloc is reached only after growth() (which leaves on a managed node with room, or a fresh one) or from book(); (R6) the reader side never reads the writer's cursor (it stops at flush), and Append links the donor chain from the donor's read cursor; (R7, shared with C02) Slice nodes pin the root block by its reference count; (R8) every site that makes bytes pending adds the same count to mallocSize; (R9) Slice refers and links every node it marks; (R10) MallocAck's discard walk and WriteDirect's write cursor go to the end of the chain. Not decided: which bytes are returned, order, exactly-once, Len/MallocLen values, node-boundary arithmetic, Append/Slice content - value properties of a linked structure that need shape analysis plus arithmetic.",
 		[]string{"single reader / single writer per buffer (API contract)"},
 		func(r *Run) {
 			cfgs := []string{"linux"}
@@ -712,6 +712,63 @@ func c01(r *Run) {
 				}
 			}
 			r.ob("C01.R9:referred-node-is-linked", "the node Refer returns is stored into the new reader's chain (head / flush.next)", sl, c, linked, "result of Refer is stored", true)
+		}
+	}
+	// ---- R10 walks over the node chain go to its end ----------------------------------------------------------
+	{
+		// MallocAck: once it started to discard the nodes behind the write cursor it stops only at the end of the chain
+		fn := bufMethod(w, "MallocAck")
+		endOfChain := func(ifi *ssa.If, cond ssa.Value, branch bool) bool {
+			b, ok := cond.(*ssa.BinOp)
+			if !ok || (b.Op != token.EQL && b.Op != token.NEQ) {
+				return false
+			}
+			x, y := b.X, b.Y
+			if isNilConst(x) {
+				x, y = y, x
+			}
+			if !isNilConst(y) || !isPointerToNamed(x.Type(), "linkBufferNode") {
+				return false
+			}
+			return branch == (b.Op == token.EQL)
+		}
+		discards := findIns(fn, func(i ssa.Instruction) bool {
+			if !isStoreToField(i, "linkBufferNode", "malloc") {
+				return false
+			}
+			// the discard stores node.off (a load of the node's off field), the boundary store an arithmetic value
+			st := i.(*ssa.Store)
+			_, isOff := loadOfField(st.Val, "linkBufferNode", "off")
+			return isOff
+		})
+		for _, d := range discards {
+			ss := &Search{Fn: fn, CutEdge: endOfChain}
+			wit := ss.Find([]Start{After(d)}, nil, true)
+			r.Visited += ss.Visited
+			r.obW("C01.R10:discard-walk-is-complete", "MallocAck's walk that discards the pending bytes of the nodes behind the write cursor ends only at the end of the chain (node == nil): a node it skips keeps its reservation, which the next Flush commits", fn, d, wit, "the only exit after a discard is the node==nil edge")
+		}
+		// WriteDirect: the write cursor ends on the last node of the chain
+		wd := bufMethod(w, "WriteDirect")
+		lastNode := func(v ssa.Value) (bool, bool) {
+			b, ok := v.(*ssa.BinOp)
+			if !ok || (b.Op != token.EQL && b.Op != token.NEQ) || !isNilConst(b.Y) {
+				return false, false
+			}
+			nx, ok := loadOfField(b.X, "linkBufferNode", "next")
+			if !ok {
+				return false, false
+			}
+			if _, isW := loadOfField(nx, "UnsafeLinkBuffer", "write"); !isW {
+				return false, false
+			}
+			return b.Op == token.EQL, true
+		}
+		links := findIns(wd, func(i ssa.Instruction) bool { return isStoreToField(i, "linkBufferNode", "next") })
+		if len(links) > 0 {
+			ss := &Search{Fn: wd, CutEdge: cutOn(lastNode)}
+			wit := ss.Find(startsAfter(links), nil, true)
+			r.Visited += ss.Visited
+			r.obW("C01.R10:write-cursor-ends-on-the-last-node", "after WriteDirect linked its nodes in, it returns only once it has seen b.write.next == nil: the write cursor is on the last node of the chain, so Flush (which commits flush..write) reaches everything that was reserved", wd, nil, wit, "exit guarded by b.write.next == nil")
 		}
 	}
 	// R7: a block that is still being read must not be recycled under the reader (borrowed reference-count rules)
